@@ -319,6 +319,14 @@ class Hist:
             if k < 8: ev.append(self.node_event())
             elif self.occ_only or k < 50: ev.append(self.occupancy_event())
             else: ev.append(self.other_event())
+            # bursts: the same message kind to the same target again with other field values (what one message leaves behind - flags,
+            # lists - must not survive the next one)
+            e = ev[-1]
+            if e[0] == "msg" and len(e[3]) >= 2 and e[2] not in (T["NODE_NEW"], T["NODE_LOST"], T["BM_MULTIPLE"], T["BM_ADDRESS"]) and r.chance(1, 4):
+                for _ in range(r.range(1, 2)):
+                    d = list(e[3]); p = r.range(1, len(d) - 1)
+                    d[p] = r.choice([0, 1, 2, 15, 16, 63, 64, 127, 128, 191, 192, 250, 251, 253, 254, 255, r.below(256)])
+                    ev.append(("msg", e[1], e[2], d))
         return ev
 
 # ---------------------------------------------------------------- scripts
